@@ -1,5 +1,10 @@
 (* C19: hook traces of real runs are judged by the extracted trace_ok / trace_complete
-   (Model/Pipe.v; Properties/C19.v trace_ok_sound, trace_ok_complete), plus census and exit class *)
+   (Model/Pipe.v; Properties/C19.v trace_ok_sound, trace_ok_complete), plus census and exit class.
+   Include-graph cases (input fields graph=, perfile=): the expected class and census come from running the
+   extracted transition system of journal.FromPath with ancestor chains (Model/PipeFromPathCycle.v kdrain /
+   kdrain_last: two canonical schedulers, which must agree) on the graph, and from the extracted enumeration
+   of simple paths (Spec/IncludeGraph.v); Properties/C19.v C19_frompath_cycle_terminates / _cycle_is_error /
+   _diamond_loads_twice say that every other schedule gives the same class and census. *)
 open Drv_util
 
 let kv_fields (sep : char) (s : string) : (string * string) list =
@@ -21,6 +26,51 @@ let parse_trace (s : string) : (int * (int * char * string) list) list =
     (i, List.filter_map (fun (st, ph, it) -> if st / 1000 = i then Some (st mod 1000, ph, it) else None) evs))
     insts
 
+(* "0>1.2,1>3,2>3,3>" -> include lists per file number *)
+let parse_graph (s : string) : int list array =
+  let items = List.filter_map (fun t ->
+    match String.index_opt t '>' with
+    | Some i ->
+        let f = int_of_string (String.sub t 0 i) in
+        let r = String.sub t (i + 1) (String.length t - i - 1) in
+        Some (f, List.map int_of_string (split_on '.' r))
+    | None -> None) (split_on ',' s) in
+  let n = List.fold_left (fun a (f, _) -> max a (f + 1)) 0 items in
+  let g = Array.make n [] in
+  List.iter (fun (f, l) -> g.(f) <- l) items; g
+
+(* (expected failure?, expected number of Builder.Add calls, sanity failures of the model side) *)
+let graph_model (graph : string) (perfile : string) : bool * int * string list =
+  let g = parse_graph graph in
+  let n = Array.length g in
+  let per = Array.of_list (List.map int_of_string (split_on '.' perfile)) in
+  let inc (f : K.nat) : K.nat list =
+    let i = int_of_nat f in if i < n then List.map nat_of_int g.(i) else [] in
+  let none (_ : K.nat) = false in
+  let univ = List.init n nat_of_int in
+  let root = nat_of_int 0 in
+  let visits = K.all_visits inc univ root in
+  let simple = K.simple_paths inc univ root and closings = K.cycle_closings inc univ root in
+  let fuel = nat_of_int (6 * List.length visits + 3) in
+  let census files = List.fold_left (fun a f -> let i = int_of_nat f in a + (if i < Array.length per then per.(i) else 0)) 0 files in
+  let out st = match K.koutcome_of st with
+    | K.KOk files -> `Ok (census files)
+    | K.KErr (K.KWCycle _) -> `Cycle
+    | K.KErr _ -> `Other
+    | K.KRunning -> `Running in
+  let o1 = out (K.kdrain inc none none none false fuel (K.kinit root)) in
+  let o2 = out (K.kdrain_last inc none none none false fuel (K.kinit root)) in
+  let spec_census = census (List.map snd simple) in
+  let probs = ref [] in
+  if o1 <> o2 then probs := "model-schedulers-disagree" :: !probs;
+  (match o1 with
+   | `Ok a -> if closings <> [] then probs := "model-ok-with-cycle" :: !probs;
+              if a <> spec_census then probs := Printf.sprintf "model-census=%d/simple-paths=%d" a spec_census :: !probs
+   | `Cycle -> if closings = [] then probs := "model-cycle-without-closing" :: !probs
+   | `Other -> probs := "model-other-error" :: !probs
+   | `Running -> probs := "model-not-finished" :: !probs);
+  ((match o1 with `Ok _ -> false | _ -> true), (match o1 with `Ok a -> a | _ -> -1), !probs)
+
 let index_of x l =
   let rec go i = function [] -> -1 | y :: r -> if y = x then i else go (i + 1) r in go 0 l
 
@@ -36,13 +86,24 @@ let () =
     let exit_ = get okv "exit" and out = get okv "out" and hooks = get okv "hooks" in
     let adds = (try int_of_string (get okv "adds") with _ -> -1) in
     let printed = get okv "printed" in
-    let model =
-      if kind = "ok"
-      then Printf.sprintf "exit=0 out=%s adds=%d printed=%s" (if cmd = "check" then "empty" else "nonempty") ndir
-             (if cmd = "print" then string_of_int ndir else "-")
-      else "exit=1 out=empty" in
     let fails = ref [] in
     let fail s = fails := s :: !fails in
+    let graph = get ikv "graph" in
+    (* expected class and census: from the generator's fields, or - for include graphs - from the extracted model *)
+    let expect_fail, expect_adds =
+      if graph = "" then (kind <> "ok", ndir)
+      else begin
+        let (f, a, probs) = graph_model graph (get ikv "perfile") in
+        List.iter fail probs;
+        if f <> (kind <> "ok") then fail "graph-class(model/generator)";
+        if not f && a <> ndir then fail (Printf.sprintf "graph-census(model=%d/generator=%d)" a ndir);
+        (f, a)
+      end in
+    let model =
+      if not expect_fail
+      then Printf.sprintf "exit=0 out=%s adds=%d printed=%s" (if cmd = "check" then "empty" else "nonempty") expect_adds
+             (if cmd = "print" then string_of_int expect_adds else "-")
+      else "exit=1 out=empty" in
     if hooks <> "1" then fail "no-hooks(knut built without hooks/0001-verif-hooks.patch)";
     if exit_ = "HANG" then fail "hang";
     if kind <> "ok" && exit_ = "0" then fail "success-despite-failing-stage";
